@@ -100,37 +100,45 @@ def run_echo(res, tier):
 
 # ---------------------------------------------------------------- (b) raw recording TLS server
 class RecordingServer(threading.Thread):
-    """accepts TLS connections with the given certificate, records application bytes, answers a fixed response"""
-    def __init__(self, port, certfile, keyfile, reply=b"20 text/plain\r\nok"):
+    """accepts TLS connections with the given certificate, records application bytes, answers a fixed response
+    (reply_for(request bytes) may be overridden: harness/cliclient.py scripts per-URL answers); threaded=True handles every
+    connection in a thread of its own (several clients at once)"""
+    def __init__(self, port, certfile, keyfile, reply=b"20 text/plain\r\nok", threaded=False):
         super().__init__(daemon=True)
         self.ctx = ssl.SSLContext(ssl.PROTOCOL_TLS_SERVER); self.ctx.load_cert_chain(certfile, keyfile)
         self.sock = socket.socket(); self.sock.setsockopt(socket.SOL_SOCKET, socket.SO_REUSEADDR, 1)
-        self.sock.bind(("127.0.0.1", port)); self.sock.listen(5); self.sock.settimeout(0.2)
-        self.reply = reply; self.received = []; self.stop_flag = False
+        self.sock.bind(("127.0.0.1", port)); self.sock.listen(64 if threaded else 5); self.sock.settimeout(0.2)
+        self.port = port
+        self.reply = reply; self.received = []; self.stop_flag = False; self.threaded = threaded
+    def reply_for(self, data):
+        return self.reply
+    def handle(self, conn):
+        try:
+            conn.settimeout(1.5)
+            tls = self.ctx.wrap_socket(conn, server_side=True)
+            data = b""
+            try:
+                while b"\r\n" not in data:
+                    chunk = tls.recv(4096)
+                    if not chunk: break
+                    data += chunk
+            except (socket.timeout, ssl.SSLError, OSError):
+                pass
+            self.received.append(data)
+            if b"\r\n" in data:
+                try: tls.sendall(self.reply_for(data))
+                except OSError: pass
+            try: tls.close()
+            except OSError: pass
+        except (ssl.SSLError, OSError):
+            self.received.append(b"")
     def run(self):
         while not self.stop_flag:
             try: conn, _ = self.sock.accept()
             except socket.timeout: continue
             except OSError: break
-            try:
-                conn.settimeout(1.5)
-                tls = self.ctx.wrap_socket(conn, server_side=True)
-                data = b""
-                try:
-                    while b"\r\n" not in data:
-                        chunk = tls.recv(4096)
-                        if not chunk: break
-                        data += chunk
-                except (socket.timeout, ssl.SSLError, OSError):
-                    pass
-                self.received.append(data)
-                if b"\r\n" in data:
-                    try: tls.sendall(self.reply)
-                    except OSError: pass
-                try: tls.close()
-                except OSError: pass
-            except (ssl.SSLError, OSError):
-                self.received.append(b"")
+            if self.threaded: threading.Thread(target=self.handle, args=(conn,), daemon=True).start()
+            else: self.handle(conn)
     def stop(self):
         self.stop_flag = True
         try: self.sock.close()
